@@ -60,7 +60,8 @@ def outside_all(cx, k):
 
 
 EF_RUNS = [['wake', 16, '1', 0, 64, 1], ['wake', 16, '101', 20, 250, 2], ['wake', 16, '1011', 33, 258, 3], ['wake', 8, '11', 9, 30, 4],
-           ['wake', 12, '10011', 13, 74, 5], ['wake', 16, '11', 17, 66, 6]]
+           ['wake', 12, '10011', 13, 74, 5], ['wake', 16, '11', 17, 66, 6],
+           ['wake', 16, '1', 0, 64, 101], ['wake', 16, '101', 20, 250, 102]]       # seeds >= 100: impedance table with a zero tail
 
 
 class EFMethod(Contract):
